@@ -138,6 +138,7 @@ class Gen:
         elif kind == "KExch":
             sps = r.sample(["NaX", "KX", "CaX2", "MgX2"], r.choice([1, 1, 2]))
             body = "".join(" %s %.6f\n" % (sp, 0.01 + 0.05 * u + 0.002 * j) for j, sp in enumerate(sps))
+            tmpl["comps"] = list(sps)
         elif kind == "KSurf":
             body = " Hfo_w %.6f 600 1\n" % (0.0005 + 0.001 * u)
             if r.random() < 0.3:
@@ -243,8 +244,11 @@ class Gen:
                 else:
                     sel.append(("-component", r.choice(["Calcite", "Strontianite"])))
                     field, val = "-moles", round(0.01 + 0.05 * u, 6)
+            elif kind == "KExch" and r.random() < 0.5:
+                # component-level (repaired in /repo ff29f6e9; the fixed history `finding2` stays as a regression case)
+                sel = [("-component", r.choice(tm.get("comps") or ["NaX"]))]
+                field, val = "-la", round(-1 + 2 * u, 5)
             elif kind == "KExch":
-                # component-level EXCHANGE_MODIFY is kept out of the random histories: FINDING exchange-modify-component
                 field, val = "-exchange_gammas", r.choice([0, 1])
             elif kind == "KGas" and r.random() < 0.4:
                 sel = [("-component", r.choice(tm.get("comps") or ["CO2(g)"]))]
